@@ -287,7 +287,8 @@ class Date:
             return str(self)
 
     def __hash__(self):
-        return hash((self._d, self._s))
+        # hash what __eq__ compares
+        return hash(self._mjd)
 
     @classmethod
     def _convert_dt(cls, dt):
